@@ -119,13 +119,14 @@ def run(ctx):
 
     for n, m, spec in div[:MAX_REPORTS]:
         r = rows[n]
+        srow = rows[[i for i in range(n, -1, -1) if rows[i][0] == "S"][0]]
         failing = spec.startswith("violates") or r[3] != "-"
         verdict = r[3] if r[3] != "-" else spec
         rep = {"kind": "correspondence", "history": _history(rows, n), "request": r[1], "query": r[5],
                "implementation": r[2], "model": " ".join(m.split(" ")[:3]), "spec_verdict": verdict,
                "shape": {"verdict": verdict.split(":")[-1], "class": r[4]},
                "replay": "session `%s` (%s): after the listed history, request `%s` on query %s -> implementation answered `%s`; model `%s`; Spec: %s"
-                         % (rows[[i for i in range(n, -1, -1) if rows[i][0] == "S"][0]][1], route, r[1], r[5], r[2][:400], " ".join(m.split(" ")[:3])[:400], verdict)}
+                         % (srow[1], srow[2], r[1], r[5], r[2][:400], " ".join(m.split(" ")[:3])[:400], verdict)}
         ctx.violation(rep, no_failing_input=not failing)
 
     # ------------------------------------------------------------ concurrent requests, judged by the Spec
